@@ -266,7 +266,16 @@ func (w *websocketPeer) Close() {
 	// Tell sendHandler to exit and discard any queued messages. Do not close
 	// wr channel in case there are incoming messages during close.
 	w.cancelSender()
-	<-w.writerDone
+	t := time.NewTimer(ctrlTimeout)
+	select {
+	case <-w.writerDone:
+		t.Stop()
+	case <-t.C:
+		// The sender is blocked writing to a peer that is not reading. Close
+		// the websocket to unblock it.
+		_ = w.conn.Close()
+		<-w.writerDone
+	}
 	close(w.wr)
 	for range w.wr {
 	}
